@@ -1,6 +1,7 @@
 CONSTANTS
-  Workers <- MCNoWorkers
-  NTs <- MCNTs
+  Workers <- Workers_three
+  NTs <- NTs_three
+  ThreadNames <- Threads_three
   WyFix = FALSE
   AllowSpurious = FALSE
 INIT Init_three
